@@ -25,6 +25,16 @@ Proof.
 Qed.
 Print Assumptions C09_rate_fee_small.
 
+(* and for EVERY rate and amount -- also inside K_rate -- the fee is never a whole unit away from the exact product
+   rate * amount: it is one of the two integers next to it.  (The decimal product is rounded to 96 bits at most twice,
+   moving it by at most 0.55 units of its last kept digit, then rounded half-up to a unit.) *)
+Theorem C09_rate_fee_within_a_unit : forall rate total T calc,
+  dec_int_value total T -> rate_fee rate total = Ok calc ->
+  calc * 10 ^ d_scale rate < d_mant rate * T + 10 ^ d_scale rate /\
+  d_mant rate * T < calc * 10 ^ d_scale rate + 10 ^ d_scale rate.
+Proof. exact rate_fee_within_a_unit. Qed.
+Print Assumptions C09_rate_fee_within_a_unit.
+
 Theorem C09_bid_fee_at_entry : forall e st sender funds id base fee price quote qsize size st' r,
   create_bid e st sender funds id base fee price quote qsize size = Ok (st', r) ->
   exists c p total rate calc,
@@ -109,6 +119,15 @@ Theorem C09_fee_nearest_unit : forall b fee x F,
   2 * (x * fee) <= 2 * F * c_amt (b_quote b) + c_amt (b_quote b).
 Proof. exact fee_for_rest_nearest. Qed.
 Print Assumptions C09_fee_nearest_unit.
+
+(* and for every bid whose fee is at most 10^27 -- also inside K_prorata -- F x is never a whole unit away from the exact
+   share fee * x / quote (one of its two neighbours) *)
+Theorem C09_fee_within_a_unit : forall b fee x F,
+  0 < c_amt (b_quote b) -> c_amt (b_quote b) < B96 -> fee <= 10 ^ 27 -> x <= c_amt (b_quote b) ->
+  fee_for_rest b fee x = Ok F ->
+  F * c_amt (b_quote b) < x * fee + c_amt (b_quote b) /\ x * fee < F * c_amt (b_quote b) + c_amt (b_quote b).
+Proof. exact fee_for_rest_within_a_unit. Qed.
+Print Assumptions C09_fee_within_a_unit.
 
 (* hence: in every state reachable by a clean history the fee escrowed with an open bid is a nearest unit to
    fee * unspent / quote *)
